@@ -1,0 +1,269 @@
+//go:build verif
+// +build verif
+
+// Contracts for package vm (statements and the shared evaluator skeleton), read by /verif/engine (govc).
+// Comment-only file: it adds no code. Expression contracts are in zz_contracts_expr_verif.go.
+
+package vm
+
+// Ghost state (C02): polls counts cancellation polls (selects on ctx.Done()); fired is set when one of them
+// chose the Done case. Cancellation is monotone: once fired, every later poll fires too.
+//@ ghost var polls int
+//@ ghost var fired bool
+//@ ghost var panicking bool
+
+//@ spec fun riOK(r *runInfoStruct) bool = r != nil && r.env != nil && r.ctx != nil && r.options != nil
+// realErr(e): e is an error proper, not nil and not one of the control-flow sentinels
+//@ spec fun realErr(e error) bool = e != nil && e != ErrBreak && e != ErrContinue && e != ErrReturn
+
+// actInv: what every loop of an evaluator keeps: the activation's incoming fields are untouched, polls only grow,
+// and no cancellation poll has fired so far (a fired poll always ends the activation's work at once)
+//@ spec fun actInv(r *runInfoStruct) bool = riOK(r) && r.env == old(r.env) && r.ctx == old(r.ctx) && r.options == old(r.options) && polls >= old(polls) && !fired
+// actInvE: same, while the activation runs in a temporary child scope (r.env is restored before returning)
+//@ spec fun actInvE(r *runInfoStruct) bool = riOK(r) && r.ctx == old(r.ctx) && r.options == old(r.options) && polls >= old(polls) && !fired
+
+// ASSUMPTION (parser): the init clause of a C-style for is a var or assignment statement
+//@ axiom auto_wfCFor: forall c *ast.CForStmt :: c != nil ==> c.Stmt1 == nil || typeis(c.Stmt1, "*ast.VarStmt") || typeis(c.Stmt1, "*ast.LetsStmt") || typeis(c.Stmt1, "*ast.ExprStmt")
+// ASSUMPTION (parser): module names are identifiers, they never contain a '.'
+//@ axiom auto_wfModuleName: forall m *ast.ModuleStmt :: m != nil ==> !strContains(m.Name, ".")
+
+// ---------------------------------------------------------------------------
+// templates
+
+// evalExpr: the contract shared by every function that evaluates an expression of the current activation.
+//   C04: the scope current before is current after (on every exit);  C02: nothing is evaluated after a poll fired,
+//   a fired poll is reported as an error;  frames: only the outgoing fields of this activation and environment
+//   contents change.
+//@ func template.evalExpr
+//@ requires ok: riOK(runInfo)
+//@ requires [C08] clean: runInfo.err == nil
+//@ requires [C02] nofire: !fired
+//@ modifies runInfo.rv, runInfo.err, runInfo.expr, runInfo.operator, polls, fired
+//@ modifies heap("MV:Int:Int"), heap("MP:Int"), heap("env.Env.values"), heap("env.Env.types")
+//@ ensures [C04] env: runInfo.env == old(runInfo.env)
+//@ ensures [C04 C02 C14] keep: runInfo.ctx == old(runInfo.ctx) && runInfo.options == old(runInfo.options)
+//@ ensures [C02] firederr: fired ==> realErr(runInfo.err)
+//@ ensures [C02] pollsmono: polls >= old(polls)
+//@ ensures [C08] nosentinel: runInfo.err != ErrBreak && runInfo.err != ErrContinue && runInfo.err != ErrReturn
+
+// evalStmt: statements additionally may register deferred calls and change runInfo.stmt; they may leave a sentinel.
+//@ func template.evalStmt
+//@ requires ok: riOK(runInfo)
+//@ requires [C08] clean: runInfo.err == nil
+//@ requires [C02] nofire: !fired
+//@ modifies runInfo.rv, runInfo.err, runInfo.expr, runInfo.operator, runInfo.stmt, runInfo.defers, polls, fired
+//@ modifies heap("MV:Int:Int"), heap("MP:Int"), heap("env.Env.values"), heap("env.Env.types")
+//@ modifies heap("vm.capturedFunc.fn"), heap("vm.capturedFunc.args"), heap("vm.capturedFunc.callSlice")
+//@ ensures [C04] env: runInfo.env == old(runInfo.env)
+//@ ensures [C04 C02 C14] keep: runInfo.ctx == old(runInfo.ctx) && runInfo.options == old(runInfo.options)
+//@ ensures [C02] firederr: fired ==> realErr(runInfo.err)
+//@ ensures [C02] pollsmono: polls >= old(polls)
+
+// loopStmt: loops consume break/continue
+//@ func template.loopStmt
+//@ like template.evalStmt
+//@ ensures [C08] consumed: runInfo.err != ErrBreak && runInfo.err != ErrContinue
+
+// ---------------------------------------------------------------------------
+// package-level facts established by the initialisers (the sentinels are distinct, non-nil errors)
+//@ global_inv sentineltypes: typeis(ErrBreak, "*errors.errorString") && typeis(ErrContinue, "*errors.errorString") && typeis(ErrReturn, "*errors.errorString") && typeis(ErrInterrupt, "*errors.errorString")
+//@ global_inv sentinels: ErrBreak != nil && ErrContinue != nil && ErrReturn != nil && ErrInterrupt != nil && ErrBreak != ErrContinue && ErrBreak != ErrReturn && ErrBreak != ErrInterrupt && ErrContinue != ErrReturn && ErrContinue != ErrInterrupt && ErrReturn != ErrInterrupt
+
+// ---------------------------------------------------------------------------
+// helpers
+
+//@ func newError
+//@ props C09
+//@ ensures nilnil: err == nil ==> result == nil
+//@ ensures nonnil: err != nil ==> result != nil && typeis(result, "*Error") && fresh(as(result, "*Error"))
+//@ ensures [C08] nosentinel: result != ErrBreak && result != ErrContinue && result != ErrReturn && result != ErrInterrupt
+
+//@ func newStringError
+//@ props C09
+//@ ensures empty: err == "" ==> result == nil
+//@ ensures nonnil: err != "" ==> result != nil && typeis(result, "*Error") && fresh(as(result, "*Error"))
+//@ ensures [C08] nosentinel: result != ErrBreak && result != ErrContinue && result != ErrReturn && result != ErrInterrupt
+
+//@ func recoverFunc
+//@ props C01
+//@ requires runInfo != nil
+//@ modifies runInfo.err
+//@ ensures quiet: !panicking ==> runInfo.err == old(runInfo.err)
+//@ ensures caught: panicking ==> runInfo.err != nil
+
+// ---------------------------------------------------------------------------
+// statements
+
+//@ func (*runInfoStruct).runSingleStmt
+//@ props C04 C08 C02
+//@ requires ok: riOK(runInfo)
+//@ requires [C08] clean: runInfo.err == nil
+//@ modifies runInfo.rv, runInfo.err, runInfo.expr, runInfo.operator, runInfo.stmt, runInfo.defers, polls, fired
+//@ modifies heap("MV:Int:Int"), heap("MP:Int"), heap("env.Env.values"), heap("env.Env.types")
+//@ modifies heap("vm.capturedFunc.fn"), heap("vm.capturedFunc.args"), heap("vm.capturedFunc.callSlice")
+//@ ensures [C04] env: runInfo.env == old(runInfo.env)
+//@ ensures [C04 C02 C14] keep: runInfo.ctx == old(runInfo.ctx) && runInfo.options == old(runInfo.options)
+//@ ensures [C02] polled: polls > old(polls)
+//@ ensures [C02] firederr: fired ==> realErr(runInfo.err)
+//@ ensures [C08] simple: (typeis(old(runInfo.stmt), "*ast.VarStmt") || typeis(old(runInfo.stmt), "*ast.LetsStmt") || typeis(old(runInfo.stmt), "*ast.ExprStmt")) ==> runInfo.err != ErrBreak && runInfo.err != ErrContinue && runInfo.err != ErrReturn
+//@ ensures [C02] stop: old(fired) ==> runInfo.err == ErrInterrupt && runInfo.defers == old(runInfo.defers)
+
+//@ func (*runInfoStruct).runStmtsStmt
+//@ props C04 C08 C02
+//@ like template.evalStmt
+//@ requires stmts != nil
+//@ loop 0 invariant actInv(runInfo) && runInfo.err == nil
+
+//@ func (*runInfoStruct).runIfStmt
+//@ props C04 C08 C02
+//@ like template.evalStmt
+//@ requires stmt != nil
+//@ loop 0 invariant actInvE(runInfo) && env == old(runInfo.env) && runInfo.err == nil
+
+//@ func (*runInfoStruct).runTryStmt
+//@ props C04 C08 C02 C09
+//@ like template.evalStmt
+//@ requires stmt != nil
+
+//@ func (*runInfoStruct).runLoopStmt
+//@ props C04 C08 C02
+//@ like template.loopStmt
+//@ requires stmt != nil
+//@ loop 0 invariant actInvE(runInfo) && env == old(runInfo.env) && runInfo.err == nil
+//@ loop 0 progress polls
+
+//@ func (*runInfoStruct).runForStmt
+//@ props C04 C08 C02
+//@ like template.loopStmt
+//@ requires stmt != nil
+
+//@ func (*runInfoStruct).runForSliceStmt
+//@ props C04 C08 C02
+//@ like template.loopStmt
+//@ requires stmt != nil
+//@ loop 0 invariant actInv(runInfo) && runInfo.err == nil
+//@ loop 0 progress polls
+
+//@ func (*runInfoStruct).runForMapStmt
+//@ props C04 C08 C02
+//@ like template.loopStmt
+//@ requires stmt != nil
+//@ loop 0 invariant actInv(runInfo) && runInfo.err == nil
+//@ loop 0 progress polls
+
+//@ func (*runInfoStruct).runForChanStmt
+//@ props C04 C08 C02
+//@ like template.loopStmt
+//@ requires stmt != nil
+//@ loop 0 invariant actInv(runInfo) && runInfo.err == nil
+//@ loop 0 progress polls
+
+//@ func (*runInfoStruct).runCForStmt
+//@ props C04 C08 C02
+//@ like template.loopStmt
+//@ requires stmt != nil
+//@ loop 0 invariant actInvE(runInfo) && env == old(runInfo.env) && runInfo.err == nil
+//@ loop 0 progress polls
+
+//@ func (*runInfoStruct).runVarStmt
+//@ props C04 C08 C02
+//@ like template.evalStmt
+//@ requires stmt != nil
+//@ ensures [C08] nosentinel: runInfo.err != ErrBreak && runInfo.err != ErrContinue && runInfo.err != ErrReturn
+//@ loop 0 invariant actInv(runInfo) && len(rvs) == len(stmt.Exprs) && runInfo.err == nil
+//@ loop 1 invariant actInv(runInfo) && runInfo.err == nil
+//@ loop 2 invariant actInv(runInfo) && runInfo.err == nil
+
+//@ func (*runInfoStruct).runLetsStmt
+//@ props C04 C08 C02
+//@ like template.evalStmt
+//@ requires stmt != nil
+//@ ensures [C08] nosentinel: runInfo.err != ErrBreak && runInfo.err != ErrContinue && runInfo.err != ErrReturn
+//@ loop 0 invariant actInv(runInfo) && len(rvs) == len(stmt.RHSS) && runInfo.err == nil
+//@ loop 1 invariant actInv(runInfo) && runInfo.err == nil
+//@ loop 2 invariant actInv(runInfo) && runInfo.err == nil
+
+//@ func (*runInfoStruct).runLetMapItemStmt
+//@ props C04 C08 C02
+//@ like template.evalStmt
+//@ requires stmt != nil
+//@ ensures [C08] nosentinel: runInfo.err != ErrBreak && runInfo.err != ErrContinue && runInfo.err != ErrReturn
+//@ loop 0 invariant actInv(runInfo) && runInfo.err == nil
+
+//@ func (*runInfoStruct).runReturnStmt
+//@ props C04 C08 C02
+//@ like template.evalStmt
+//@ requires stmt != nil
+//@ ensures [C08] nosentinel: runInfo.err != ErrBreak && runInfo.err != ErrContinue && runInfo.err != ErrReturn
+//@ loop 0 invariant actInv(runInfo) && len(rvs) == len(stmt.Exprs) && runInfo.err == nil
+
+//@ func (*runInfoStruct).runModuleStmt
+//@ props C04 C08 C02
+//@ like template.evalStmt
+//@ requires stmt != nil
+
+//@ func (*runInfoStruct).runSwitchStmt
+//@ props C04 C08 C02
+//@ like template.evalStmt
+//@ requires stmt != nil
+//@ loop 0 invariant actInvE(runInfo) && env == old(runInfo.env) && runInfo.err == nil
+//@ loop 1 invariant actInvE(runInfo) && env == old(runInfo.env) && runInfo.err == nil
+
+//@ func (*runInfoStruct).runDeferStmt
+//@ props C04 C08 C02 C09
+//@ like template.evalStmt
+//@ requires stmt != nil
+//@ ensures [C08] nosentinel: runInfo.err != ErrBreak && runInfo.err != ErrContinue && runInfo.err != ErrReturn
+
+//@ func (*runInfoStruct).runDeleteStmt
+//@ props C04 C08 C02
+//@ like template.evalStmt
+//@ requires stmt != nil
+//@ ensures [C08] nosentinel: runInfo.err != ErrBreak && runInfo.err != ErrContinue && runInfo.err != ErrReturn
+
+//@ func (*runInfoStruct).runCloseStmt
+//@ props C04 C08 C02
+//@ like template.evalStmt
+//@ requires stmt != nil
+//@ ensures [C08] nosentinel: runInfo.err != ErrBreak && runInfo.err != ErrContinue && runInfo.err != ErrReturn
+
+//@ func (*runInfoStruct).runChanStmt
+//@ props C04 C08 C02
+//@ like template.evalStmt
+//@ requires stmt != nil
+//@ ensures [C08] nosentinel: runInfo.err != ErrBreak && runInfo.err != ErrContinue && runInfo.err != ErrReturn
+
+//@ func (*runInfoStruct).runDefers
+//@ props C04 C09 C02
+//@ requires ok: riOK(runInfo)
+//@ modifies runInfo.rv, runInfo.err, runInfo.defers, polls, fired
+//@ modifies heap("MV:Int:Int"), heap("MP:Int"), heap("env.Env.values"), heap("env.Env.types")
+//@ ensures [C04] env: runInfo.env == old(runInfo.env)
+//@ ensures [C04 C02 C14] keep: runInfo.ctx == old(runInfo.ctx) && runInfo.options == old(runInfo.options)
+//@ ensures [C09] rvkept: runInfo.rv == old(runInfo.rv)
+//@ ensures [C09] bodyerr: old(runInfo.err) != nil && old(runInfo.err) != ErrReturn ==> runInfo.err == old(runInfo.err)
+//@ ensures [C09] once: runInfo.defers == nil
+//@ loop 0 invariant riOK(runInfo) && runInfo.env == old(runInfo.env) && runInfo.ctx == old(runInfo.ctx) && runInfo.options == old(runInfo.options) && rv == old(runInfo.rv) && (old(runInfo.err) != nil && old(runInfo.err) != ErrReturn ==> err == old(runInfo.err)) && runInfo.defers == nil
+
+//@ func (*runInfoStruct).callDeferredFunc
+//@ props C04 C09 C02
+//@ requires ok: riOK(runInfo)
+//@ modifies runInfo.err, polls, fired
+//@ modifies heap("MV:Int:Int"), heap("MP:Int"), heap("env.Env.values"), heap("env.Env.types")
+//@ ensures [C04] env: runInfo.env == old(runInfo.env)
+//@ ensures [C04 C02 C14] keep: runInfo.ctx == old(runInfo.ctx) && runInfo.options == old(runInfo.options)
+//@ ensures [C09] rvkept: runInfo.rv == old(runInfo.rv) && runInfo.defers == old(runInfo.defers)
+
+// ---------------------------------------------------------------------------
+// VM-function protocol: function values created by funcExpr return (value, error-value); when a cancellation
+// poll fired inside them, the error value is non-nil. callFired(rvs) is the same fact for the slice returned by
+// reflect's Call (proved for the functions the vm creates, ASSUMED for host functions with the same signature).
+//@ spec fun callFired(rvs []reflect.Value) bool
+//@ spec fun rvKind(v reflect.Value) int
+//@ spec fun rvValid(v reflect.Value) bool
+//@ spec fun rvIsNil(v reflect.Value) bool
+
+//@ func template.vmfunc
+//@ modifies polls, fired, heap("MV:Int:Int"), heap("MP:Int"), heap("env.Env.values"), heap("env.Env.types")
+//@ ensures [C02] pollsmono: polls >= old(polls)
+//@ ensures [C02] firederr: (fired && !old(fired)) ==> !rvIsNil(result.1)
